@@ -247,7 +247,12 @@ impl Parameters {
 
         target_decoys
             .par_iter_mut()
-            .for_each(|peptide| peptide.proteins.sort_unstable());
+            .for_each(|peptide| {
+                peptide.proteins.sort_unstable();
+                // the same form can be generated twice from one protein (e.g. a peptide
+                // occurring at two positions): list each protein once
+                peptide.proteins.dedup();
+            });
 
         let num_dropped = init_size - target_decoys.len();
         log::trace!(
